@@ -159,12 +159,22 @@ class Vertex(base.BaseObject):
             return self._QA_NB_INVALID
 
         if args in self.__qa_nb_cache:
-            self._CACHE_STATS[self.uid][0] += 1
+            self._cache_stat(0)
 
             return self.__qa_nb_cache[args]
 
-        self._CACHE_STATS[self.uid][1] += 1
+        self._cache_stat(1)
         return self._QA_NB_INVALID
+
+    def _cache_stat(self, which: int):
+        """
+        Count one cache event (hit, miss, invalidation, insertion) for this
+        vertex.
+
+        Vertices that did not go through ``__init__`` in this interpreter
+        (e.g. unpickled ones) are registered on first use.
+        """
+        self._CACHE_STATS.setdefault(self.uid, [0, 0, 0, 0])[which] += 1
 
     def _qa_neighbors_invalidate(self):
         """
@@ -177,9 +187,10 @@ class Vertex(base.BaseObject):
         -- linked, unlinked, or anything else, to maintain cache integrity and
         prevent stale data.
         """
-        if not self.NEIGHBOR_CACHING:
-            return
-        self._CACHE_STATS[self.uid][2] += 1
+        # drop the data even while caching is switched off; otherwise entries
+        # stored earlier would be served again once it is switched back on
+        if self.NEIGHBOR_CACHING:
+            self._cache_stat(2)
         self.__qa_nb_cache = {}
 
     def _qa_neighbors_insert(self, answer, *args):
@@ -196,7 +207,7 @@ class Vertex(base.BaseObject):
         """
         if not self.NEIGHBOR_CACHING:
             return
-        self._CACHE_STATS[self.uid][3] += 1
+        self._cache_stat(3)
         self.__qa_nb_cache[args] = answer
 
     def add_to_link(self, link: Link):
